@@ -137,11 +137,11 @@ struct RowBlockContainer {
     size_t ndata = batch.offset[batch.size] - batch.offset[0];
     if (batch.field != NULL) {
       field.resize(field.size() + ndata);
-      IndexType *fhead = BeginPtr(field) + offset.back();
+      IndexType *fhead = BeginPtr(field) + field.size() - ndata;
       for (size_t i = 0; i < ndata; ++i) {
-        CHECK_LE(batch.field[i], std::numeric_limits<IndexType>::max())
+        CHECK_LE(batch.field[batch.offset[0] + i], std::numeric_limits<IndexType>::max())
             << "field  exceed numeric bound of current type";
-        IndexType field_id = static_cast<IndexType>(batch.field[i]);
+        IndexType field_id = static_cast<IndexType>(batch.field[batch.offset[0] + i]);
         fhead[i] = field_id;
         max_field = std::max(max_field, field_id);
       }
@@ -149,15 +149,16 @@ struct RowBlockContainer {
     index.resize(index.size() + ndata);
     IndexType *ihead = BeginPtr(index) + offset.back();
     for (size_t i = 0; i < ndata; ++i) {
-      CHECK_LE(batch.index[i], std::numeric_limits<IndexType>::max())
+      CHECK_LE(batch.index[batch.offset[0] + i], std::numeric_limits<IndexType>::max())
           << "index  exceed numeric bound of current type";
-      IndexType findex = static_cast<IndexType>(batch.index[i]);
+      IndexType findex = static_cast<IndexType>(batch.index[batch.offset[0] + i]);
       ihead[i] = findex;
       max_index = std::max(max_index, findex);
     }
     if (batch.value != NULL) {
       value.resize(value.size() + ndata);
-      std::memcpy(BeginPtr(value) + value.size() - ndata, batch.value, ndata * sizeof(DType));
+      std::memcpy(BeginPtr(value) + value.size() - ndata, batch.value + batch.offset[0],
+                  ndata * sizeof(DType));
     }
     size_t shift = offset[size];
     offset.resize(offset.size() + batch.size);
